@@ -40,6 +40,8 @@ var accelShapes = []string{
 	`[ae]*(?:\s*x| )b[cd]`, `[xy]*(?:abc|b)c(d)`, `[xy]*(?:[a ]{1,3}\s+|q)b(d)`, `[ab]*(?:\s+c|cd?)d\w`, `\w*(?:ab|a)b(c)`,
 	`[ac]*[ab]{1,2}a`, `a*[ab]{1,2}[a-]`, `[ac]+[ab]{1,3}b[ab]{1,2}a`, `\w*[ab]{2,3}b`, `(?>a+)?ab`, `(?>a*)?aab`, `(?>a{1,2}){2}`, `(?<=(?:a*ba){2})`, `(?<=(?:a*$){2})`,
 	`(a*c?)b\1`, `(\w+,)\1`, `(a+b?)\1c`, `(?<w>\w+ )\k<w>`, `([ab]+c?)d\1`,
+	// several leading literals whose occurrences overlap in the text (the earliest START wins, whichever literal is found first)
+	`cd|bcde`, `(?:cd|bcde)\d`, `bc|abcd`, `(?i)cd|bcde`, `(?:ab|ba)c`, `bcd|abc|cde`, `(?:da|ab|bcd)x`, `(?i:bc|abcd)e`,
 	`abab`, `abca\d`, `abab\w`, `aba`, `abcab`, `(?i)abab`,
 	`[ab]{25}c`, `[ab]{21}cd`, `\w{22}x`, `[a-c]{30}`, `a{25}b`, `[a-z]+(?:@|\d+)[a-z]+(?:\.|,)[a-z]+`, `\w+(?:-|\s+)\w+(?:=|\d)\w+`, `[a-z]+(?:x|[0-9]{2})[a-z]+(?:;|y+)z`,
 	`\bab`, `\Bab`, `a{3}`, `a{2,}b`, `(?:ab){2}`, `(?:ab*){2}`, `(ab*)+c`, `[a-c]{2}d`, `é+a`, `a😀b`,
